@@ -373,6 +373,7 @@ theorem mkNetAddress_valid {α : Type} (L : IPLib α) (cfg : Cfg) (ok : CfgOK cf
           · simp at hc
       | int _ => simp [classifyHost] at hc
       | bool _ => simp [classifyHost] at hc
+      | none => simp [classifyHost] at hc
       | other => simp [classifyHost] at hc
 
 theorem showInt_pos (n : Int) (h : 1 ≤ n) : showInt n = showDec n.toNat ∧ Int.ofNat n.toNat = n := by
@@ -499,6 +500,7 @@ theorem mkService_valid {α : Type} (L : IPLib α) (cfg : Cfg) (ok : CfgOK cfg)
       | bool _ => simp [validateProtocol] at hp
       | ip4 _ => simp [validateProtocol] at hp
       | ip6 _ => simp [validateProtocol] at hp
+      | none => simp [validateProtocol] at hp
       | other => simp [validateProtocol] at hp
     split at h
     · rename_i a
@@ -518,6 +520,7 @@ theorem mkService_valid {α : Type} (L : IPLib α) (cfg : Cfg) (ok : CfgOK cfg)
         | bool _ => simp [NetAddr.fromString] at ha
         | ip4 _ => simp [NetAddr.fromString] at ha
         | ip6 _ => simp [NetAddr.fromString] at ha
+        | none => simp [NetAddr.fromString] at ha
         | other => simp [NetAddr.fromString] at ha
 
 /-- printing a valid `Service` and parsing the text back gives an equal object -/
